@@ -40,17 +40,18 @@ func c03States() map[string][]c03State {
 	add(st("zero", ""), st("nonzero", "ab"), st("nonzero", "13540042617"), st("nonzero", "测试"))
 	add(st("zero", false), st("nonzero", true))
 	add(st("zero", int8(0)), st("nonzero", int8(3)), st("nonzero", int8(-2)))
-	add(st("zero", int16(0)), st("nonzero", int16(7)))
+	add(st("zero", int16(0)), st("nonzero", int16(7)), st("nonzero", int16(256)))
 	add(st("zero", int32(0)), st("nonzero", int32(1)))
-	add(st("zero", int64(0)), st("nonzero", int64(9)))
+	add(st("zero", int64(0)), st("nonzero", int64(9)), st("nonzero", int64(1)<<32), st("nonzero", int64(-1)<<63))
 	add(st("zero", int(0)), st("nonzero", int(2)))
 	add(st("zero", uint8(0)), st("nonzero", uint8(3)))
 	add(st("zero", uint16(0)), st("nonzero", uint16(1)))
 	add(st("zero", uint32(0)), st("nonzero", uint32(8)))
-	add(st("zero", uint64(0)), st("nonzero", uint64(2)))
+	add(st("zero", uint64(0)), st("nonzero", uint64(2)), st("nonzero", uint64(1)<<63), st("nonzero", uint64(1)<<32))
 	add(st("zero", uint(0)), st("nonzero", uint(5)))
-	add(st("zero", float32(0)), st("nonzero", float32(1.5)))
-	add(st("zero", float64(0)), st("nonzero", 2.25), st("nonzero", -1.0))
+	// numbers too small for the next narrower type are supplied values all the same (1e-46 is 0 as a float32)
+	add(st("zero", float32(0)), st("nonzero", float32(1.5)), st("nonzero", float32(1e-45)))
+	add(st("zero", float64(0)), st("nonzero", 2.25), st("nonzero", -1.0), st("nonzero", 1e-46), st("nonzero", -3e-60), st("nonzero", 5e-324))
 	add(st("nil", []int(nil)), st("empty", []int{}), st("nonzero", []int{1, 1}), st("nonzero", []int{0}))
 	add(st("nil", []string(nil)), st("empty", []string{}), st("nonzero", []string{"a", "b"}), st("nonzero", []string{""}))
 	add(st("nil", []float64(nil)), st("empty", []float64{}), st("nonzero", []float64{0.5}))
